@@ -379,21 +379,31 @@ def search(ctx, exe, drv, tier):
         tsan(ctx, cases[:150] if tier == 'quick' else cases[:600])
 
 def tsan(ctx, cases):
+    """ThreadSanitizer build of the harness with the three anchored source files of the tree under test compiled in
+    (instrumented; they interpose the library's copies).  Search only."""
     exe = ctx.bdir('C33_probe_tsan')
-    if not ctx.cxx(os.path.join(VERIF, 'harness', 'C33_probe.cpp'), exe, flags=['-ldl', '-Wl,--export-dynamic'], sanitize='thread'):
+    srcs = [os.path.join(REPO, 'SimTKcommon', 'src', f) for f in ('ParallelExecutor.cpp', 'Parallel2DExecutor.cpp', 'ParallelWorkQueue.cpp')]
+    if not ctx.cxx(os.path.join(VERIF, 'harness', 'C33_probe.cpp'), exe, flags=['-ldl', '-Wl,--export-dynamic'] + srcs, sanitize='thread'):
         ctx.notes.append('TSan build of the harness failed'); ctx.extra['tsan'] = 'build failed'; return
+    cases = [c for c in cases if not (c.startswith('p2d') and c.split()[6] == '2')]
     try:
-        r = subprocess.run([exe], input='\n'.join(cases) + '\n', capture_output=True, text=True, timeout=1500,
+        r = subprocess.run([exe], input='\n'.join(cases) + '\n', capture_output=True, text=True, timeout=2400,
                            env=dict(os.environ, TSAN_OPTIONS='halt_on_error=0 report_signal_unsafe=0'))
-        reports = r.stderr.count('WARNING: ThreadSanitizer')
-        ctx.extra['tsan'] = {'cases': len(cases), 'reports': reports}
-        if reports:
-            first = r.stderr[r.stderr.find('WARNING: ThreadSanitizer'):][:1800]
-            # only races located in the three anchored source files are C33's
-            if any(f in first for f in ('ParallelExecutor', 'Parallel2DExecutor', 'ParallelWorkQueue')):
-                ctx.report('impl:tsan-data-race', 'ThreadSanitizer reports a data race in the executors', {'failing_input': cases[0], 'tsan_report': first, 'replay_cmd': exe})
     except subprocess.TimeoutExpired:
-        ctx.extra['tsan'] = 'timed out'
+        ctx.extra['tsan'] = 'timed out'; return
+    reports = r.stderr.split('WARNING: ThreadSanitizer')[1:]
+    known = 0; other = []
+    for rep in reports:
+        rep = rep[:3000]
+        if 'ParallelExecutorImpl::isFinished' in rep and '~ParallelExecutorImpl' in rep: known += 1
+        elif any(f in rep for f in ('ParallelExecutor', 'Parallel2DExecutor', 'ParallelWorkQueue')): other.append(rep)
+    done = r.stdout.count('\nEND')
+    ctx.extra['tsan'] = {'cases_run': done, 'reports': len(reports), 'reports_unlocked_finished_read': known, 'other_reports_in_anchored_files': len(other)}
+    if known:
+        ctx.report('tsan-race-pe-finished', 'ThreadSanitizer: ParallelExecutor worker reads `finished` without the mutex while the destructor writes it (%d reports)' % known,
+                   {'failing_input': cases[0], 'tsan_report': 'WARNING: ThreadSanitizer' + reports[0][:1800], 'replay_cmd': exe})
+    if other:
+        ctx.report('impl:tsan-data-race', 'ThreadSanitizer reports a data race in the executors', {'failing_input': cases[0], 'tsan_report': 'WARNING: ThreadSanitizer' + other[0][:1800], 'replay_cmd': exe})
 
 # ------------------------------------------------------------------------------------------------ main
 def run(ctx):
